@@ -239,7 +239,7 @@ def expected_warnings(form, delim, xform):
     names = [s for s in form if not s.startswith("__")]
     for key in ("settings", "entities"):
         if not form.get(key):
-            cands = tuple(k for k in names if full_matrix_distance(k.lower(), key) <= 2 and k not in SHEETS and not k.startswith("_"))
+            cands = tuple(k for k in names if full_matrix_distance(k.lower(), key) <= 2 and k.lower() not in SHEETS and not k.startswith("_"))
             if cands:
                 exp.add(("misspell", key, cands))
     # IANA: languages of the output's translations
